@@ -7,6 +7,7 @@ import Driver.Auth
 import Driver.C11
 import Driver.C15
 import Driver.C13
+import Driver.C16
 open Driver
 
 def machines : List (String × Machine × Machine) :=
@@ -18,7 +19,8 @@ def machines : List (String × Machine × Machine) :=
    ("C03", Auth.machine, Auth.judgeC03),
    ("C11", C11.machine, C11.judge),
    ("C15", C15.machine, C15.judge),
-   ("C13", C13.machine, C13.judge)]
+   ("C13", C13.machine, C13.judge),
+   ("C16", C16.machine, C16.judge)]
 
 def main (args : List String) : IO UInt32 := do
   match args with
